@@ -34,6 +34,16 @@ func poolOf(p proto, n int) []uint32 {
 	return base[:n]
 }
 
+// poolSpecial: ids chosen for their bit patterns – zero, all ones, and ids that
+// differ from one another only in the top or only in the bottom byte (a lookup
+// that truncates or hashes the id badly confuses them).
+func poolSpecial(p proto, n int) []uint32 {
+	max := uint32(1)<<uint(p.XidBits()) - 1
+	top := uint32(0x80) << uint(p.XidBits()-8)
+	base := []uint32{0, max, 0x00a1b2c3, 0x00a1b2c3 ^ top, 0x00a1b2c3 ^ 1, max ^ top}
+	return base[:n]
+}
+
 // ---------------------------------------------------------------- C10 routing
 
 func genRouting(p proto, t *simrt.Tape, tier string) *ccCfg {
@@ -45,7 +55,14 @@ func genRouting(p proto, t *simrt.Tape, tier string) *ccCfg {
 	}
 	npool := 1 + t.Weighted(3, 4, 2, 1)
 	cfg.pool = poolOf(p, npool)
+	if t.Coin(1, 5) {
+		cfg.pool = poolSpecial(p, 2+t.Choose(5))
+	}
 	ncallers := 1 + t.Weighted(2, 4, 4, 3, 2, 1, 1, 1)
+	marathon := t.Coin(1, 10) // few callers, many calls: state that only goes wrong after many reuses of an id
+	if marathon {
+		ncallers = 1 + t.Choose(2)
+	}
 	gatedRun := t.Coin(1, 4)
 	cfg.stall = t.Coin(1, 4)
 	cfg.hb = true
@@ -54,6 +71,9 @@ func genRouting(p proto, t *simrt.Tape, tier string) *ccCfg {
 	cfg.span = T * time.Duration((int64(1)<<uint(cfg.tries))+1)
 	for i := 0; i < ncallers; i++ {
 		ncalls := 1 + t.Weighted(4, 3, 1)
+		if marathon {
+			ncalls = 8 + t.Choose(10)
+		}
 		var specs []callSpec
 		for j := 0; j < ncalls; j++ {
 			sp := callSpec{xid: cfg.pool[t.Choose(len(cfg.pool))]}
@@ -75,6 +95,10 @@ func genRouting(p proto, t *simrt.Tape, tier string) *ccCfg {
 			}
 			sp.startDelay = pick(t, 0, 0, ms(1), T/2, T-ms(1), T, T+ms(1), 2*T)
 			sp.inUseRetry = []int{0, 3, 60}[t.Weighted(2, 1, 2)]
+			if marathon {
+				sp.startDelay = pick(t, 0, 0, 0, ms(1))
+				sp.inUseRetry = 0
+			}
 			specs = append(specs, sp)
 		}
 		cfg.callers = append(cfg.callers, specs)
@@ -112,6 +136,9 @@ func genLiveness(p proto, t *simrt.Tape, tier string) *ccCfg {
 	cfg.logger = t.Coin(1, 2)
 	ncallers := 1 + t.Weighted(4, 3, 2, 1)
 	cfg.pool = poolOf(p, 1+t.Weighted(1, 2, 3, 2))
+	if t.Coin(1, 5) {
+		cfg.pool = poolSpecial(p, 2+t.Choose(5))
+	}
 	// interesting instants: timer instants of a call started at 0, +-1ms, and anything in the span
 	instant := func() time.Duration {
 		switch t.Weighted(3, 3, 2) {
